@@ -90,6 +90,7 @@ PROPS = {
             {'engine': 'verus', 'name': 'zip', 'tier': 'quick', 'role': 'Zip::next: stashes cleared at FlushAndRestart'},
             {'engine': 'kani', 'name': 'transaction_window', 'tier': 'quick', 'role': 'TransactionWindowManager::process: nothing carried over at FlushAndRestart (KNOWN-FINDING F8)'},
             {'engine': 'verus', 'name': 'fold', 'tier': 'quick', 'role': 'Fold::next: result before the end marker, reset at FlushAndRestart, Terminate sticky'},
+            {'engine': 'verus', 'name': 'keyed_fold', 'tier': 'quick', 'role': 'KeyedFold::next: all results of an iteration, then the held-back watermark, then the end marker; maps and queue empty again after FlushAndRestart; Terminate sticky'},
             {'engine': 'verus', 'name': 'event_time_v', 'tier': 'quick', 'exclude_obligations': ['process.early_element_not_dropped'], 'role': 'event-time windows: everything fires at FlushAndRestart, nothing carried over'},
             {'engine': 'verus', 'name': 'count_window', 'tier': 'quick', 'role': 'count windows: slots cleared at FlushAndRestart/Terminate'},
             {'engine': 'verus', 'name': 'channel_source', 'tier': 'quick', 'role': 'ChannelSource::next: one FlushAndRestart when the channel closes, then Terminate forever'},
@@ -132,6 +133,7 @@ PROPS = {
             {'engine': 'verus', 'name': 'zip', 'tier': 'quick', 'role': 'Zip::next: a pair carries the max of the two timestamps'},
             {'engine': 'verus', 'name': 'event_time_v', 'tier': 'quick', 'exclude_obligations': ['process.early_element_not_dropped'], 'role': 'EventTimeWindowManager::process: after Watermark(w) no window that can still fire has end <= w'},
             {'engine': 'verus', 'name': 'fold', 'tier': 'quick', 'role': 'Fold::next: watermark held back until the result (stamped with the max timestamp) is out'},
+            {'engine': 'verus', 'name': 'keyed_fold', 'tier': 'quick', 'role': 'KeyedFold::next: the watermark (max of the iteration\'s watermarks) is held back until every result is out; a result carries the max timestamp of its key'},
             {'engine': 'verus', 'name': 'frontier_v', 'tier': 'quick', 'role': 'WatermarkFrontier::{update,compute_frontier,reset}: front = min of entries or None, returns the new frontier iff it changed, announced values strictly increase (any number of replicas; IndexMap modelled)'},
             {'engine': 'kani', 'name': 'frontier', 'tier': 'thorough', 'bounded': True, 'role': 'same contract on the REAL IndexMap + fxhash, 2 upstream replicas; opt_join complete'},
             {'engine': 'verus', 'name': 'window_operator', 'tier': 'quick', 'role': 'WindowOperator::next: a data element goes to the manager of its key only (created from init on first use), its results are queued with that key; a control element goes to every manager and is queued AFTER all their results; recycled managers are dropped; the queue is served in order'},
@@ -155,12 +157,13 @@ PROPS = {
         'level': 'proof',
         'units': [
             {'engine': 'verus', 'name': 'fold', 'tier': 'quick', 'role': 'Fold::next = sequential left fold of the iteration, one result iff non-empty, timestamp = max'},
+            {'engine': 'verus', 'name': 'keyed_fold', 'tier': 'quick', 'role': 'KeyedFold::{process_item,next}: per iteration exactly one result per key that occurs = sequential left fold of the key\'s values from a clone of init (lemma_run_per_key), stamped with the key\'s max timestamp; any HashMap drain order'},
             {'engine': 'verus', 'name': 'two_phase', 'tier': 'quick', 'role': 'lemma: local-then-global fold over any partition equals the sequential fold (assoc/commutative laws as hypotheses)'},
             {'engine': 'verus', 'name': 'aggregators', 'tier': 'quick', 'role': 'the (local, global) closure pairs of group_by_avg / group_by_sum / group_by_count: local adds one value (and counts it), global merges partial sums and adds partial counts; lemma: merging the totals of two runs == total of the concatenation (associative +)'},
         ],
         'explanation': 'Verus proof on the real Fold::next that each iteration yields exactly the sequential left fold of its items (user closure = assumed function), plus a pure lemma that the '
                        'two-phase (local pre-aggregation, then global) form equals the sequential fold for every partition of the input, empty partitions included.',
-        'assumptions': ['KeyedFold::next (hash-map entry API, drain/map/extend) is NOT under contract: outside the Verus subset and intractable for CBMC here', 'keyed rich_map state not covered'],
+        'assumptions': ['KeyedFold: std HashMap by its map view, Entry API replaced by its definition (unit keyed_fold)', 'keyed rich_map state not covered'],
     },
     'C14': {
         'level': 'proof',
